@@ -471,3 +471,25 @@ func rfc9218PrioOK(p PriorityParam) bool { return p.urgency < 8 && p.incremental
 //@   ensures  streamID != old(ws.priorityUpdateBuf.streamID) && old(rfc9218Head(ws, opt.priority)) != nil ==> rfc9218Head(ws, opt.priority) == old(rfc9218Head(ws, opt.priority))
 //@   ensures  streamID != old(ws.priorityUpdateBuf.streamID) && old(rfc9218Head(ws, opt.priority)) != nil ==> ws.streams[streamID].location.next == old(rfc9218Head(ws, opt.priority))
 //@   noframe
+//@
+//@ func (*priorityWriteSchedulerRFC9218).CloseStream(ws, streamID)
+//@   requires ws != nil && ws.streams != nil && rfc9218PrioOK(ws.streams[streamID].priority)
+//@   requires ws.streams[streamID].location != nil ==> ws.streams[streamID].location.next != nil && ws.streams[streamID].location.prev != nil
+//@   ensures  ws.streams[streamID].location == nil
+//@   ensures  old(ws.streams[streamID].location) == nil ==> (forall u int, i int :: 0 <= u && u < 8 && 0 <= i && i < 2 ==> ws.heads[u][i] == old(ws.heads[u][i]))
+//@   ensures  forall u int, i int :: 0 <= u && u < 8 && 0 <= i && i < 2 && (u != int(old(ws.streams[streamID].priority.urgency)) || i != int(old(ws.streams[streamID].priority.incremental))) ==> ws.heads[u][i] == old(ws.heads[u][i])
+//@   ensures  old(ws.streams[streamID].location) != nil && old(ws.streams[streamID].location.next) == old(ws.streams[streamID].location) ==> rfc9218Head(ws, old(ws.streams[streamID].priority)) == nil
+//@   ensures  old(ws.streams[streamID].location) != nil && old(ws.streams[streamID].location.next) != old(ws.streams[streamID].location) && old(rfc9218Head(ws, ws.streams[streamID].priority)) == old(ws.streams[streamID].location) ==> rfc9218Head(ws, old(ws.streams[streamID].priority)) == old(ws.streams[streamID].location.next)
+//@   ensures  old(ws.streams[streamID].location) != nil && old(ws.streams[streamID].location.next) != old(ws.streams[streamID].location) && old(rfc9218Head(ws, ws.streams[streamID].priority)) != old(ws.streams[streamID].location) ==> rfc9218Head(ws, old(ws.streams[streamID].priority)) == old(rfc9218Head(ws, ws.streams[streamID].priority))
+//@   noframe
+//@
+//@ func (*priorityWriteSchedulerRFC9218).AdjustStream(ws, streamID, priority)
+//@   requires ws != nil && ws.streams != nil && rfc9218PrioOK(ws.streams[streamID].priority) && rfc9218PrioOK(priority)
+//@   requires ws.streams[streamID].location != nil ==> ws.streams[streamID].location.next != nil && ws.streams[streamID].location.prev != nil
+//@   requires rfc9218Head(ws, priority) != nil ==> rfc9218Head(ws, priority).prev != nil
+//@   ensures  old(ws.streams[streamID].location) == nil ==> ws.priorityUpdateBuf.streamID == streamID && ws.priorityUpdateBuf.priority == priority && ws.streams[streamID].location == nil
+//@   ensures  old(ws.streams[streamID].location) == nil ==> (forall u int, i int :: 0 <= u && u < 8 && 0 <= i && i < 2 ==> ws.heads[u][i] == old(ws.heads[u][i]))
+//@   ensures  old(ws.streams[streamID].location) != nil ==> ws.streams[streamID].location == old(ws.streams[streamID].location) && ws.streams[streamID].priority == priority
+//@   ensures  forall u int, i int :: 0 <= u && u < 8 && 0 <= i && i < 2 && (u != int(old(ws.streams[streamID].priority.urgency)) || i != int(old(ws.streams[streamID].priority.incremental))) && (u != int(priority.urgency) || i != int(priority.incremental)) ==> ws.heads[u][i] == old(ws.heads[u][i])
+//@   ensures  old(ws.streams[streamID].location) != nil ==> rfc9218Head(ws, priority) != nil
+//@   noframe
